@@ -1,5 +1,7 @@
 package main
 
+import "strings"
+
 func init() {
 	register("C17", &propInfo{
 		Explanation: "Structural clauses of the numerical kernels: CUMTAB every binary search over a cumulative table uses the result in the way that matches how the table was built (table of piece starts: last entry <= x; table of piece ends: first entry >= x), so a polyline/area lookup selects the piece that contains the target.",
@@ -21,9 +23,13 @@ func init() {
 			{Name: "joined curve clamps only idx == len (defect repaired)", File: "model2d/curves.go",
 				Old: "\tif curveIdx >= len(j) {\n\t\tcurveIdx = len(j) - 1\n\t}", New: "\tif curveIdx == len(j) {\n\t\tcurveIdx--\n\t}", Rule: "IDX.FLOAT", Expect: "JoinedCurve"},
 			{Name: "typo in the degree-9 row of the binomial table", File: "model2d/curves.go",
-				Old: "{1, 9, 36, 84, 126, 126, 84, 36, 9, 1},", New: "{1, 9, 36, 84, 126, 162, 84, 36, 9, 1},", Rule: "PASCAL", Expect: "row 7"},
+				Old: "{1, 9, 36, 84, 126, 126, 84, 36, 9, 1},", New: "{1, 9, 36, 84, 126, 162, 84, 36, 9, 1},", Rule: "PASCAL", Expect: "row 8"},
 			{Name: "fast path guard off by one", File: "model2d/curves.go",
 				Old: "} else if len(b)-2 < len(binomialCoeffs) {", New: "} else if len(b)-2 <= len(binomialCoeffs) {", Rule: "PASCAL", Expect: "guard"},
+			{Name: "Vec4.Sub adds the last component", File: "numerical/vecs.go",
+				Old: "return Vec4{v[0] - v1[0], v[1] - v1[1], v[2] - v1[2], v[3] - v1[3]}", New: "return Vec4{v[0] - v1[0], v[1] - v1[1], v[2] - v1[2], v[3] + v1[3]}", Rule: "UNIFORM", Expect: "Vec4"},
+			{Name: "2D element-wise product uses X twice", File: "model2d/coords.go",
+				Old: "return Coord{X: c.X * c1.X, Y: c.Y * c1.Y}", New: "return Coord{X: c.X * c1.X, Y: c.Y * c1.X}", Rule: "UNIFORM", Expect: "Mul"},
 			{Name: "angle reflected instead of shifted (defect repaired)", File: "toolbox3d/angles.go",
 				Old: "theta = math.Mod(theta+2*math.Pi, 2*math.Pi)", New: "theta = math.Mod(2*math.Pi-theta, 2*math.Pi)", Rule: "CONGRUENT", Expect: "CanonicalAngle"},
 		},
@@ -42,6 +48,15 @@ func runC17(c *Ctx) {
 	c.floor("CONGRUENT", 1)
 	c.runIdxFloat("IDX.FLOAT", pkgs, c.fileFilter("model2d/curves.go", "model2d/bezier_fit.go"))
 	c.floor("IDX.FLOAT", 1)
+	c.runUniform("UNIFORM", pkgs, func(name string) bool {
+		for _, suf := range []string{"numerical/vecs.go", "model2d/coords.go", "model3d/coords.go"} {
+			if strings.HasSuffix(name, suf) {
+				return true
+			}
+		}
+		return false
+	})
+	c.floor("UNIFORM", 40)
 	c.runPascal("PASCAL")
 	c.floor("PASCAL", 10)
 }
